@@ -178,6 +178,36 @@ def _is_in_lambda_body(leaf, scope_node):
     return False
 
 
+def _is_in_generator_expression(node, scope_node):
+    """
+    A generator expression is a scope of its own that may be asynchronous
+    without an enclosing async function (since Python 3.7). Only the iterable
+    of its first ``for`` is evaluated in the enclosing scope.
+    """
+    child = node
+    parent = node.parent
+    while parent is not None and child is not scope_node:
+        type_ = parent.type
+        if type_ in ('lambdef', 'lambdef_nocond'):
+            return False
+        elif type_ == 'sync_comp_for' and child is parent.children[3]:
+            first = parent.parent if parent.parent.type == 'comp_for' else parent
+            if first.parent.type not in ('sync_comp_for', 'comp_if'):
+                # The first iterable, skip this comprehension.
+                child = first.parent
+                parent = child.parent
+                continue
+        elif type_ in ('testlist_comp', 'dictorsetmaker', 'argument') \
+                and parent.children[-1].type in _COMP_FOR_TYPES:
+            # The innermost comprehension.
+            if type_ == 'argument':
+                return True
+            return type_ == 'testlist_comp' and parent.parent.children[0] == '('
+        child = parent
+        parent = parent.parent
+    return False
+
+
 def _skip_parens_bottom_up(node):
     """
     Returns an ancestor node of an expression, skipping all levels of parens
@@ -571,7 +601,10 @@ class _AwaitOutsideAsync(SyntaxRule):
     message = "'await' outside async function"
 
     def is_issue(self, leaf):
-        return not self._normalizer.context.is_async_funcdef()
+        if self._normalizer.context.is_async_funcdef():
+            return False
+        return self._normalizer.version < (3, 7) \
+            or not _is_in_generator_expression(leaf, self._normalizer.context.node)
 
     def get_error_node(self, node):
         # Return the whole await statement.
@@ -1215,8 +1248,11 @@ class _CompForRule(_CheckAssignmentRule):
         if expr_list.type != 'expr_list':  # Already handled.
             self._check_assignment(expr_list)
 
-        return node.parent.children[0] == 'async' \
-            and not self._normalizer.context.is_async_funcdef()
+        if node.parent.children[0] != 'async' \
+                or self._normalizer.context.is_async_funcdef():
+            return False
+        return self._normalizer.version < (3, 7) \
+            or not _is_in_generator_expression(node.parent, self._normalizer.context.node)
 
 
 @ErrorFinder.register_rule(type='expr_stmt')
